@@ -664,7 +664,23 @@ pub fn explore(rep: &mut Report, sub: &Subject, cfg: &EnvCfg) {
                     r
                 }
                 "C08" => chunking_oracle(&e, &reference).map(|(c, m)| ("C08", c, m)),
-                "C09" => verdict_oracle(sub, &e, &ii, &oo).map(|(c, m)| ("C09", c, m)),
+                "C09" => {
+                    let mut r = verdict_oracle(sub, &e, &ii, &oo).map(|(c, m)| ("C09", c, m));
+                    if r.is_none() {
+                        // A wait verdict on which a runner retires the block
+                        // (ended input, or eof() true) while the block still
+                        // owes output is an untruthful verdict.
+                        let retired = matches!(e.steps.last().map(|s| &s.verdict), Some(Verdict::WaitStream { .. } | Verdict::WaitFunc));
+                        if retired {
+                            if let Some((c, m)) = chunking_oracle(&e, &reference) {
+                                if c == "output-short" {
+                                    r = Some(("C09", "retired-owing-output".to_string(), format!("the last verdict lets a runner retire the block, but {m}")));
+                                }
+                            }
+                        }
+                    }
+                    r
+                }
                 "C12" if sub.no_retire_check => source_tag_oracle(sub, &e).map(|(c, m)| ("C12", c, m)),
                 "C12" => sub.spec.as_ref().and_then(|s| tag_oracle(&e, s)).map(|(c, m)| ("C12", c, m)),
                 "C10" => {
